@@ -30,16 +30,50 @@ def var(name: str) -> Term:
     return ('var', name)
 
 
+# Import aliases are irrelevant: a name bound by an import is rewritten to the conventional alias the rule
+# patterns are written with, and jax.tree_util spellings to their jax.tree synonyms.
+CANONICAL_ALIAS = {
+    'jax.numpy': 'jnp', 'numpy': 'np', 'jax': 'jax', 'lineax': 'lx', 'functools': 'functools', 'jax.scipy.linalg': 'jsl',
+    'jax.lax': 'lax', 'jax_healpy': 'jhp', 'operator': 'operator', 'equinox': 'equinox', 'math': 'math',
+}
+TREE_SYNONYMS = {'tree_map': 'map', 'tree_leaves': 'leaves', 'tree_flatten': 'flatten', 'tree_unflatten': 'unflatten',
+                 'tree_structure': 'structure', 'tree_reduce': 'reduce', 'tree_all': 'all'}
+
+
+def _canonical_name(expr: ast.Name) -> Term:
+    module = getattr(expr, '_module', None)
+    if module is not None and expr.id in module.imports and expr.id not in module.defs:
+        target = module.imports[expr.id]
+        if target in CANONICAL_ALIAS:
+            alias = CANONICAL_ALIAS[target]
+            if alias == 'functools' and expr.id == 'ft':
+                return ('var', 'ft')
+            return ('var', alias)
+        if target == 'jax.tree_util':
+            return ('attr', ('var', 'jax'), 'tree_util')
+        if target == 'jax.tree':
+            return ('attr', ('var', 'jax'), 'tree')
+        if target.startswith('jax.tree_util.') and target.split('.')[-1] in TREE_SYNONYMS:
+            return ('attr', ('attr', ('var', 'jax'), 'tree'), TREE_SYNONYMS[target.split('.')[-1]])
+        if target.startswith('jax.tree.'):
+            return ('attr', ('attr', ('var', 'jax'), 'tree'), target.split('.')[-1])
+    return ('var', expr.id)
+
+
 def term(expr: ast.AST | None, env: dict[str, Term] | None = None) -> Term:
     env = env or {}
     if expr is None:
         return ('none',)
     if isinstance(expr, ast.Name):
-        return env.get(expr.id, ('var', expr.id))
+        if expr.id in env:
+            return env[expr.id]
+        return _canonical_name(expr)
     if isinstance(expr, ast.Constant):
         return ('const', repr(expr.value))
     if isinstance(expr, ast.Attribute):
         base = term(expr.value, env)
+        if base == ('attr', ('var', 'jax'), 'tree_util') and expr.attr in TREE_SYNONYMS:
+            return ('attr', ('attr', ('var', 'jax'), 'tree'), TREE_SYNONYMS[expr.attr])
         if expr.attr == 'T':
             return ('T', base)
         if expr.attr == 'I':
